@@ -245,6 +245,49 @@ def instance_handlers(text):
     return bad
 
 
+def handler_after_use(text):
+    """a visit_X handler that the visitor acquires after it has already been used (set on the instance or
+    on its class) intercepts the nodes of class X from then on - what a visitor does depends on the
+    handlers it has now, not on what it visited before"""
+    import types
+    from pycparser import c_ast
+    r = py_parse_obj(text, "")
+    if r[0] != "OK":
+        return None
+    ast = r[1]
+    n_id = [0]
+
+    def walk(n):
+        if type(n).__name__ == "ID":
+            n_id[0] += 1
+        for _, c in n.children():
+            walk(c)
+    try:
+        walk(ast)
+    except RecursionError:
+        return None
+    if not n_id[0]:
+        return None
+    bad = []
+    for level in ("instance", "class"):
+        class Late(c_ast.NodeVisitor):
+            pass
+        v = Late()
+        v.visit(ast)
+        hits = []
+
+        def h(self, node):
+            hits.append(node.name)
+        if level == "instance":
+            v.visit_ID = types.MethodType(h, v)
+        else:
+            Late.visit_ID = h
+        v.visit(ast)
+        if len(hits) != n_id[0]:
+            bad.append("a visit_ID handler set on the %s after the visitor's first use intercepted %d of %d ID nodes" % (level, len(hits), n_id[0]))
+    return bad
+
+
 def visitor_history(text):
     """visitor classes related by inheritance, used one after the other on the same AST: what a visit_X
     method intercepts must depend only on the class of the visitor, not on which visitors ran before"""
@@ -409,6 +452,9 @@ def run(ctx):
     for t in hist_texts:
         for why in instance_handlers(t) or []:
             ctx.violation(why + " on %r" % t[:80], {"kind": "instance-handlers", "text": t})
+    for t in hist_texts[:10]:
+        for why in handler_after_use(t) or []:
+            ctx.violation(why + " on %r" % t[:80], {"kind": "handler-after-use", "text": t}, lambda rp: "F-c14-handler-added-after-use")
     for t in hist_texts:
         for why in show_history(t) or []:
             ctx.violation(why + " on %r" % t[:80], {"kind": "show-history", "text": t})
@@ -445,6 +491,10 @@ def replay(ctx, payload):
         pr = instance_handlers(payload["input"]["text"])
         print(pr)
         return not pr
+    if payload["input"].get("kind") == "handler-after-use":
+        pr = handler_after_use(payload["input"]["text"])
+        print(pr)
+        return not pr
     if payload["input"].get("kind") == "show-history":
         pr = show_history(payload["input"]["text"])
         print(pr)
@@ -467,6 +517,8 @@ def replay_finding(ctx, f):
         o = observe(w["text"])[0]
         f2 = o.split("\t")
         return int(f2[1]) != int(f2[3])
+    if w["kind"] == "handler_after_use":
+        return bool(handler_after_use(w["text"]))
     if w["kind"] == "visitor_copy":
         return any("of a used visitor" in pr for pr in (visitor_history(w["text"]) or []))
     return still_fails(w)
